@@ -16,7 +16,7 @@ from core import hexf, unhex
 META = dict(
     level="exploration",
     technique="exhaustive enumeration of scaled families (base point x tan beta x 256 sign patterns x k = 1..128) built three ways (fresh object, re-used evaluated object, copy of evaluated object), metamorphic scaling oracle on every doubling step plus fresh-vs-re-used agreement",
-    text="8 base points (benchmark points of the repository, rescaled where needed so that the lightest SUSY mass is >= 300 GeV, three independent generations, non-zero trilinears) x tan(beta) x all 256 sign patterns of (mu,M1,M2,M3,At,Ab,Atau,Amu); all dimensionful SUSY inputs and Q scaled by k = 1,2,...,128. On every step k -> 2k (k <= 64): |a1L(2k)/a1L(k) - 1/4| <= 50 (MZ/(k M_min))^2 with and without resummation; k^2 a2L(k) affine in log k (second difference over two doublings <= 50 (MZ/(k M_min))^2 sum|components|) and a2L(2k)/a2L(k) in [0.2,0.35] whenever |a2L| >= 0.5 sum|components| at both ends; the log-free 2L component (fermion/sfermion approximation) obeys the 1L bound, the photonic and chargino 2L(a) components the [0.2,0.35] window; |tan_beta_cor(2k) - tan_beta_cor(k)| <= 50 (MZ/(k M_min))^2; the 2L uncertainty is >= 2.3e-10 at every k, k^2 (unc - 2.3e-10) never exceeds 3x its running maximum and (unc - 2.3e-10) at k=128 is <= 2e-3 of its value at k=1. Families on which any member throws or whose lightest SUSY mass is < 300 GeV are counted and skipped. Every family is produced three times: with a freshly built model per member, by moving the already evaluated k=1 object through all k (setters + calculate_masses()), and by moving a copy of the evaluated k=1 object to each k; the inequalities are required on all three, and every quantity (all a_mu functions and helpers, DR-bar masses, Yukawas) of the re-used models must agree with the fresh model of the same parameters to relative 1e-9, with identical exception behaviour.",
+    text="8 base points (benchmark points of the repository, rescaled where needed so that the lightest SUSY mass is >= 300 GeV, three independent generations, non-zero trilinears) x tan(beta) x all 256 sign patterns of (mu,M1,M2,M3,At,Ab,Atau,Amu); all dimensionful SUSY inputs and Q scaled by k = 1,2,...,128. On every step k -> 2k (k <= 64): |a1L(2k)/a1L(k) - 1/4| <= 50 (MZ/(k M_min))^2 with and without resummation; k^2 a2L(k) affine in log k (second difference over two doublings <= 50 (MZ/(k M_min))^2 sum|components|) and a2L(2k)/a2L(k) in [0.2,0.35] whenever |a2L| >= 0.5 sum|components| at both ends; the log-free 2L component (fermion/sfermion approximation) obeys the 1L bound, the photonic and chargino 2L(a) components the [0.2,0.35] window; |tan_beta_cor(2k) - tan_beta_cor(k)| <= 50 (MZ/(k M_min))^2; the 2L uncertainty is >= 2.3e-10 at every k, k^2 (unc - 2.3e-10) never exceeds 3x its running maximum and (unc - 2.3e-10) at k=128 is <= 2e-3 of its value at k=1. The one-loop bound is applied in two sharper forms as well: with the family constant c_fam = max(1, 2 max_{k<=4} |d(k)|/x_k^2) for k >= 8, and independent of any constant: d(k) = a1L(2k)/a1L(k) - 1/4 must fall at least like 1/k (|d(K)| <= 2 max_{k<=K/2} |d(k)| k/K once above 1e-12), which rounding noise amplified by the 1/k^2 law violates. In addition to the generic base points the degenerate strata are enumerated at msl(2,2) in {320, 1000, 3000} GeV x tan(beta) in {2,3,10,50}: universal smuon soft masses (exact, split 1e-6, 1e-3) x { each of |M1|,|M2|,|mu| at or within +-{1e-3,2e-3,4e-3,1e-2,4e-2} of the smuon soft mass or of the sneutrino mass, either sign, alone or with a second one exactly on it; pairs among |M1|,|M2|,|mu| at or within the same offsets of each other; all five equal with all sign combinations }, every family through k = 1..128 with the ratios between all consecutive k (component windows of the 2L parts are not applied there, the log-free 2L part is normalised to the sum of the moduli of its terms). Families on which any member throws or whose lightest SUSY mass is < 300 GeV are counted and skipped. Every family is produced three times: with a freshly built model per member, by moving the already evaluated k=1 object through all k (setters + calculate_masses()), and by moving a copy of the evaluated k=1 object to each k; the inequalities are required on all three, and every quantity (all a_mu functions and helpers, DR-bar masses, Yukawas) of the re-used models must agree with the fresh model of the same parameters to relative 1e-9, with identical exception behaviour.",
     note="trusted: dimensional analysis of the MSSM contributions (the oracle is the scaling relation, no reference numbers). The design's 'uncertainty shrinks by >= 2.5 per doubling / non-increasing' is not implied by the statement and false on the unchanged tree (the 2L(a) sfermion term is (A + B log k)/k^2 and changes sign); it is replaced by the envelope stated in `text`.",
     design_ref="3/C07")
 
@@ -25,19 +25,22 @@ HARNESSES = [(("mssm", "plain", ["mssm.cpp"]), {})]
 MZ = 91.1876
 FLOOR = 2.3e-10
 C = 50.0
+C_FAM_MIN = 1.0   # natural size of the O((MZ/M)^2) coefficient (observed <= 1.23 on the strata, <= 4.0 on cancelling sign patterns)
 THETA = 0.5      # the 2L total is 'not an accidental cancellation' if |a2L| >= THETA sum|components|
-KS = [1.0, 2.0, 4.0, 8.0, 16.0, 32.0, 64.0, 128.0]
+KS = KS_BENCH = [1.0, 2.0, 4.0, 8.0, 16.0, 32.0, 64.0, 128.0]
 PATTERNS = list(itertools.product((1.0, -1.0), repeat=8))
 # (base point, common pre-factor that lifts its lightest SUSY mass above 300 GeV)
 BASES = [("BM1", 1.0), ("BM2", 1.0), ("BM3", 1.0), ("BM4", 1.0), ("P3", 1.0),
          ("example.gm2", 2.0), ("example-gm2calc.cpp", 2.5), ("P1a", 2.0)]
 SUSY = ["MChi", "MCha", "MSm", "MSvmL", "MSveL", "MSvtL", "MSe", "MStau", "MSd", "MSu", "MSs", "MSc", "MSb", "MSt", "MGlu"]
 COMPS = ["amu2LFSfapprox", "amu2LChipmPhotonic", "amu2LChi0Photonic", "amu2LaSferm", "amu2LaCha"]
+FS_PARTS = ["amu2LWHnu", "amu2LWHmuL", "amu2LBHmuL", "amu2LBHmuR", "amu2LBmuLmuR"]
 COMPS_NR = ["nr.amu2LFSfapprox_nonres", "nr.amu2LChipmPhotonic", "nr.amu2LChi0Photonic", "nr.amu2LaSferm", "nr.amu2LaCha"]
 
 
-def check_family(lay, v):
+def check_family(lay, v, KS=None, strata=False):
     """v: list of result vectors for k = KS.  Returns (fails [(check, what)], stats, M_min)"""
+    KS = KS or KS_BENCH
     g = lambda i, n: float(v[i][lay[n][0]])
     fails, st = [], {}
     mmin = min(float(np.min(v[0][mssmrun.col(lay, n)])) for n in SUSY)
@@ -82,14 +85,19 @@ def check_family(lay, v):
                                   % (n, k, 2 * k, 4 * k, u, sd, C * x2 * S)))
         # two loop components: the fermion/sfermion approximation contains only logarithms of ratios of
         # scaled quantities (Q is scaled), so it obeys the power law like the one-loop result
-        for n in ("amu2LFSfapprox", "amu2LFSfapprox_nonres"):
+        for n, pre in (("amu2LFSfapprox", ""), ("amu2LFSfapprox_nonres", "")):
             a, b = g(i, n), g(i + 1, n)
-            r = b / a if a != 0 else float("nan")
-            stat("(r-1/4)/x^2 " + n, (r - 0.25) / x2)
-            if not abs(r - 0.25) <= C * x2:
-                fails.append((n + ":ratio", "%s(%gk0)/%s(%gk0) = %r: |ratio - 1/4| = %.3e > 50 (MZ/(k M_min))^2 = %.3e (log-free 2L component)"
-                              % (n, 2 * k, n, k, r, abs(r - 0.25), C * x2)))
-        for n in ("amu2LChipmPhotonic", "amu2LChi0Photonic", "amu2LaCha"):
+            # relative to the sum of the moduli of its five terms (x tan_beta_cor for the resummed one): for
+            # M2 ~ -M1 the wino and bino terms cancel and the ratio of the sums means nothing (8.9 on the unchanged tree)
+            parts = sum(abs(g(i, q)) for q in FS_PARTS) * (abs(g(i, "tan_beta_cor")) if n == "amu2LFSfapprox" else 1.0)
+            dev = abs(b - a / 4) / (parts / 4) if parts > 0 else float("nan")
+            stat("|FSf(2k)-FSf(k)/4|/(x^2 sum|terms|/4) " + n, dev / x2)
+            if not dev <= C * x2:
+                fails.append((n + ":ratio", "%s(%gk0) = %r, %s(%gk0) = %r: |a(2k) - a(k)/4| = %.3e x sum|terms|/4 > 50 (MZ/(k M_min))^2 = %.3e (log-free 2L component)"
+                              % (n, 2 * k, b, n, k, a, dev, C * x2)))
+        # component windows: not on the degenerate strata (for mu ~ -M1 the neutralino photonic term itself
+        # passes through a cancellation: 0.185 on the unchanged tree); the property only speaks about the total
+        for n in (() if strata else ("amu2LChipmPhotonic", "amu2LChi0Photonic", "amu2LaCha")):
             a, b = g(i, n), g(i + 1, n)
             r = b / a if a != 0 else float("nan")
             stat("ratio " + n, r)
@@ -107,6 +115,35 @@ def check_family(lay, v):
         stat("k^2(unc-floor)(2k)/running max", u1 / umax if umax > 0 else 0.0)
         if i >= 1 and not u1 <= 3 * umax:
             fails.append(("unc:growth", "k^2 (unc2L - 2.3e-10) = %.4e at %gk0 exceeds 3x its running maximum %.4e: no 1/k^2 decay up to logarithms" % (u1, 2 * k, umax)))
+    # one loop, sharper forms of the same bound.  d(k) = a1L(2k)/a1L(k) - 1/4 = (A + B x_k^2 + ..) x_k^2 with a
+    # coefficient A that belongs to the family, not to k:
+    #  (i) family constant: c_fam = max(1, 2 max_{k<=4} |d(k)|/x_k^2) (factor 2: A + B x^2 may pass through zero near
+    #      one of k = 1, 2, 4 but not near all three; floor 1: a family with a second small parameter delta - a
+    #      1e-6 smuon splitting, a 1e-3 offset - has a cross-over at delta M^2 ~ MZ^2 where A itself changes by its
+    #      natural size, e.g. 0.0035 -> 0.016 at msl = mse (1 + 1e-6) = 64 TeV); for k >= 8: |d(k)| <= c_fam x_k^2 + 1e-12;
+    # (ii) independent of any constant: d falls at least like 1/k, |d(K)| <= 2 max_{k<=K/2} |d(k)| k/K, once it is
+    #      above 1e-12 (rounding of a ratio of doubles) - rounding noise amplified by the 1/k^2 law grows instead.
+    for n in ("amu1L", "amu1L_nonres"):
+        d = []
+        for i in range(len(KS) - 1):
+            a, b = g(i, n), g(i + 1, n)
+            d.append(b / a - 0.25 if a != 0 else float("nan"))
+        xs = [(MZ / (k * mmin)) ** 2 for k in KS[:-1]]
+        cfam = max(C_FAM_MIN, 2 * max(abs(d[i]) / xs[i] for i in range(3)))
+        stat("c_fam " + n, cfam)
+        for i in range(3, len(d)):
+            stat("|d(k)|/(c_fam x^2) k>=8 " + n, abs(d[i]) / (cfam * xs[i] + 1e-12))
+            if not abs(d[i]) <= cfam * xs[i] + 1e-12:
+                fails.append((n + ":ratio-family-constant",
+                              "%s(%gk0)/%s(%gk0) - 1/4 = %.4e but the family's own constant from k <= 4 allows %.3g x (MZ/(k M_min))^2 = %.4e (normalised deviations %s): the deviation is not O((MZ/M_SUSY)^2)"
+                              % (n, 2 * KS[i], n, KS[i], d[i], cfam, cfam * xs[i], ["%.3g" % (abs(t) / x_) for t, x_ in zip(d, xs)])))
+        for i in range(2, len(d)):
+            env = 2 * max(abs(d[j]) * KS[j] / KS[i] for j in range(i) if KS[j] <= KS[i] / 2)
+            stat("|d(K)|/(1/k envelope) " + n, abs(d[i]) / env if abs(d[i]) > 1e-12 and env > 0 else 0.0)
+            if not (abs(d[i]) <= 1e-12 or abs(d[i]) <= env):
+                fails.append((n + ":deviation-grows",
+                              "%s(2k)/%s(k) - 1/4 at k = %s k0 is %s: at %gk0 it exceeds twice the 1/k extrapolation %.3e of the smaller k: noise growing with the scale, not an O((MZ/M)^2) correction"
+                              % (n, n, [("%g" % k) for k in KS[:-1]], ["%.3e" % t for t in d], KS[i], env)))
     uu = [g(i, "unc2L") for i in range(len(KS))]
     if not all(u >= FLOOR for u in uu):
         fails.append(("unc:below-floor", "two-loop uncertainty %r below its floor 2.3e-10" % min(uu)))
@@ -115,6 +152,105 @@ def check_family(lay, v):
     if not r128 <= 2e-3:
         fails.append(("unc:not-to-floor", "unc2L - 2.3e-10 = %.4e at 128 k0 vs %.4e at k0 (ratio %.3e > 2e-3): not driven to the floor" % (uu[-1] - FLOOR, uu[0] - FLOOR, r128)))
     return fails, st, mmin
+
+
+# ------------------------------------------------------------------ degenerate strata
+# The generic base points never have equal masses.  Finite-precision defects (a Taylor window, a closed-form
+# eigenvalue) live exactly on the degenerate strata and are amplified by the 1/k^2 law, so these are enumerated:
+# universal smuon soft masses (exact, split by 1e-6, 1e-3); each of |M1|, |M2|, |mu| at / within OFFS of the
+# smuon soft mass or the tree-level sneutrino mass, either side, either sign, alone or with a second one exactly
+# on it; pairs among |M1|, |M2|, |mu| at / within OFFS of each other; all five equal.
+OFFS = [0.0, 1e-3, -1e-3, 2e-3, -2e-3, 4e-3, -4e-3, 1e-2, -1e-2, 4e-2, -4e-2]
+SPLITS = [0.0, 1e-6, 1e-3]
+SCALES = [320.0, 1000.0, 3000.0]     # 320 rather than 300: the sneutrino D-term would push M_min below the 300 GeV of the quantifier
+STRATA_TBS = [2.0, 3.0, 10.0, 50.0]
+X3 = ["M1", "M2", "Mu"]
+STRATA_COLS = SUSY + ["amu1L", "amu1L_nonres", "amu2L", "amu2L_nonres", "amu2LFSfapprox_nonres", "tan_beta_cor", "unc2L"] + COMPS + COMPS_NR + FS_PARTS
+
+
+def strata_configs(quick):
+    """[(label, {X: (reference 'S' smuon soft mass | 'V' sneutrino mass | 'F' far scale 2S, offset, sign)})];
+    parameters not mentioned sit at distinct far values (2.0, 2.3, 2.6) S"""
+    out = [("a:universal-smuons-only", {})]
+    for ref in ("S", "V"):
+        for X in X3:
+            for d in OFFS:
+                for sg in (1.0, -1.0):
+                    out.append(("b:%s~%s" % (X, ref), {X: (ref, d, sg)}))
+        for X in X3:
+            for Y in X3:
+                if X == Y:
+                    continue
+                for d in OFFS:
+                    for sg in (1.0, -1.0):
+                        out.append(("b2:%s~%s,%s=%s" % (X, ref, Y, ref), {X: (ref, d, sg), Y: (ref, 0.0, 1.0)}))
+    for i, X in enumerate(X3):
+        for Y in X3[i + 1:]:
+            for d in OFFS:
+                for sg in (1.0, -1.0):
+                    out.append(("c:%s~%s" % (Y, X), {X: ("F", 0.0, 1.0), Y: ("F", d, sg)}))
+    for s1 in (1.0, -1.0):
+        for s2 in (1.0, -1.0):
+            for s3 in (1.0, -1.0):
+                out.append(("d:all-five-equal", {"M1": ("S", 0.0, s1), "M2": ("S", 0.0, s2), "Mu": ("S", 0.0, s3)}))
+    return out
+
+
+def strata_point(S, tb, split, cfg, k=1.0):
+    import math
+    c2b = (1 - tb * tb) / (1 + tb * tb)
+    msv = math.sqrt(S * S + 0.5 * MZ * MZ * c2b)
+    far = {"M1": 2.0 * S, "M2": 2.3 * S, "Mu": 2.6 * S}
+    val = {}
+    for X in X3:
+        if X in cfg:
+            ref, d, sg = cfg[X]
+            val[X] = sg * {"S": S, "V": msv, "F": 2.0 * S}[ref] * (1 + d)
+        else:
+            val[X] = far[X]
+    sq = lambda xs: [(k * x) ** 2 for x in xs]
+    return dict(tb=tb, Mu=k * val["Mu"], M1=k * val["M1"], M2=k * val["M2"], M3=k * 2.2 * S, MA=k * 1.9 * S, Q=k * S,
+                ml2=sq([2.1 * S, S, 2.05 * S]), me2=sq([1.95 * S, S * (1 + split), 2.15 * S]),
+                mq2=sq([2.0 * S, 2.1 * S, 1.9 * S]), mu2=sq([2.05 * S, 2.15 * S, 1.8 * S]), md2=sq([1.95 * S, 2.2 * S, 2.0 * S]),
+                Ae=[k * 0.1 * S] * 3, Ad=[k * 0.1 * S] * 3, Au=[k * 0.1 * S] * 3, force=0.0)
+
+
+def _strata_worker(job):
+    S, tb, split, quick = job
+    cfgs = strata_configs(quick)
+    nk = len(KS)
+    pts = [strata_point(S, tb, split, c, k) for _, c in cfgs for k in KS]
+    res, lay = mssmrun.run_os_cols(pts, STRATA_COLS, "plain")
+    out = dict(fails=[], stats={}, checked=[], skipped=0, light=0, reasons={}, bylabel={})
+    for ic, (lab, c) in enumerate(cfgs):
+        rs = res[ic * nk:(ic + 1) * nk]
+        bad = [r for r in rs if r[0] != "OK"]
+        if bad:
+            out["skipped"] += 1
+            k_ = "%s: %s" % (bad[0][1], bad[0][2][:60])
+            out["reasons"][k_] = out["reasons"].get(k_, 0) + 1
+            continue
+        fails, st, mmin = check_family(lay, [r[1] for r in rs], strata=True)
+        if mmin < 300.0:
+            out["light"] += 1
+            continue
+        key = (lab, tuple(sorted((x, v[1], v[2]) for x, v in c.items())))
+        out["checked"].append(key)
+        cls = lab.split(":")[0]
+        out["bylabel"][cls] = out["bylabel"].get(cls, 0) + 1
+        for k_, val in st.items():
+            if isinstance(val, tuple):
+                lo, hi = out["stats"].get(k_, (float("inf"), -float("inf")))
+                out["stats"][k_] = (min(lo, val[0]), max(hi, val[1]))
+            else:
+                out["stats"][k_] = out["stats"].get(k_, 0) + val
+        seen = set()
+        for chk, what in fails:
+            if chk in seen:
+                continue
+            seen.add(chk)
+            out["fails"].append((lab, c, chk, what))
+    return S, tb, split, out
 
 
 # get_physical() entries that calculate_masses() fills only while they are still zero (copy_susy_masses_to_pole):
@@ -248,6 +384,42 @@ def run(ctx):
             if out["checked"]:
                 ctx.sample({"base": base, "k0": k0, "tb": tb, "families_checked": len(out["checked"]),
                             "skipped": out["skipped_throw"] + out["skipped_partial"] + out["skipped_light"]})
+    # degenerate strata
+    sjobs = [(S, tb, sp, ctx.quick) for S in SCALES for tb in STRATA_TBS for sp in SPLITS]
+    scnt, sstats, sreasons, sby = dict(checked=0, skipped=0, light=0, total=0), {}, {}, {}
+    ncfg = len(strata_configs(ctx.quick))
+    with mp.Pool(min(16, os.cpu_count() or 4)) as pool:
+        for S, tb, sp, out in pool.imap(_strata_worker, sjobs):
+            ctx.evals(ncfg * len(KS))
+            scnt["total"] += ncfg
+            scnt["checked"] += len(out["checked"])
+            scnt["skipped"] += out["skipped"]
+            scnt["light"] += out["light"]
+            for k_, v in out["reasons"].items():
+                sreasons[k_] = sreasons.get(k_, 0) + v
+            for k_, v in out["bylabel"].items():
+                sby[k_] = sby.get(k_, 0) + v
+            for k_, val in out["stats"].items():
+                if isinstance(val, tuple):
+                    lo, hi = sstats.get(k_, (float("inf"), -float("inf")))
+                    sstats[k_] = (min(lo, val[0]), max(hi, val[1]))
+                else:
+                    sstats[k_] = sstats.get(k_, 0) + val
+            for key in out["checked"]:
+                ctx.nontrivial(("stratum", S, tb, sp) + key)
+            for lab, c, chk, what in out["fails"]:
+                ctx.fail("stratum:%s:%s" % (chk, lab.split(":")[0]),
+                         "%s  [degenerate stratum %s %r, msl(2,2) = %g, mse(2,2) = msl(2,2) (1 + %g), tan(beta) = %g]" % (what, lab, c, S, sp, tb),
+                         {"stratum": {"S": hexf(S), "tb": hexf(tb), "split": hexf(sp), "label": lab,
+                                      "cfg": {x: [v[0], hexf(v[1]), v[2]] for x, v in c.items()}}})
+    ctx.note("strata_families_total", scnt["total"])
+    ctx.note("strata_families_checked", scnt["checked"])
+    ctx.note("strata_families_skipped(throw)", scnt["skipped"])
+    ctx.note("strata_families_skipped(lightest_mass_below_300)", scnt["light"])
+    ctx.note("strata_skip_reasons", sreasons)
+    ctx.note("strata_families_checked_by_class(a,b,b2,c,d)", dict(sorted(sby.items())))
+    ctx.note("strata_observed_ranges", {k_: ([float("%.4g" % v[0]), float("%.4g" % v[1])] if isinstance(v, tuple) else v)
+                                        for k_, v in sorted(sstats.items()) if "amu1L" in k_ or "tbc" in k_})
     ctx.note("families_total", len(jobs) * len(PATTERNS))
     ctx.note("families_checked", cnt["checked"])
     ctx.note("families_skipped_all_members_throw", cnt["skipped_throw"])
@@ -265,7 +437,8 @@ def run(ctx):
                                  for k_, v in sorted(stats.items())})
     ctx.assumptions += [
         "SM input fixed to input/example.gm2; M_min = lightest of chargino, neutralino, slepton, squark, gluino masses at k = 1",
-        "c = 50 in the O((MZ/M_SUSY)^2) bounds (observed |ratio - 1/4|/x^2 <= 4.0 for a1L, <= 0.12 for the log-free 2L part, <= 0.28 for tan_beta_cor)",
+        "c = 50 in the global O((MZ/M_SUSY)^2) bounds (observed |ratio - 1/4|/x^2 <= 4.0 for a1L on cancelling sign patterns, <= 1.23 on the degenerate strata, <= 0.12 for the log-free 2L part, <= 0.4 for tan_beta_cor); the per-family constant has the floor 1 = natural size of the coefficient, needed because a second small parameter (1e-6 smuon splitting, 1e-3 offset) produces a legitimate cross-over of the coefficient at delta M^2 ~ MZ^2",
+        "on the unchanged tree the normalised one-loop deviation never grows with k on any family (max |d(K)| / (1/k envelope) = 0.31): no rounding-noise finding",
         "the [0.2,0.35] window of the 2L total is only tested where |a2L| >= 0.5 sum|components| at both ends of a step (0.3 as in the design is not enough: partial cancellation between components with different logarithmic slopes gives 0.189 at P3, tan beta 50 on the unchanged tree); the log-affine form is tested on every step"]
     return ctx.finish(
         "%d base points x tan(beta) %r x 256 sign patterns x k in {1,2,...,128} (all dimensionful SUSY inputs and Q scaled); "
@@ -278,6 +451,24 @@ def replay(ctx, path):
     d = json.load(open(path))
     dd = d["data"]
     mssmrun.exe("plain")
+    if "stratum" in dd:
+        e = dd["stratum"]
+        cfg = {x: (v[0], unhex(v[1]), float(v[2])) for x, v in e["cfg"].items()}
+        S, tb, sp = unhex(e["S"]), unhex(e["tb"]), unhex(e["split"])
+        res, lay = mssmrun.run_os_cols([strata_point(S, tb, sp, cfg, k) for k in KS], STRATA_COLS, "plain")
+        if any(r[0] != "OK" for r in res):
+            print("replay: family skipped now (%r)" % ([r[1:3] for r in res if r[0] != "OK"][:1],))
+            return 0
+        fails, _, mmin = check_family(lay, [r[1] for r in res], strata=True)
+        want = d["key"].split(":", 1)[1].rsplit(":", 1)[0]
+        hit = [f for f in fails if f[0] == want] or fails
+        for chk, what in hit[:8]:
+            print("replay: [%s] %s" % (chk, what))
+        if hit and mmin >= 300.0:
+            print("VIOLATION property=C07 replay=%s" % path)
+            return 1
+        print("replay: holds now (all C07 inequalities on the stored degenerate-stratum family)")
+        return 0
     lay = mssmrun.layout("plain")["O"]
     p = tuple(float(x) for x in dd["signs"])
     k0, tb = unhex(dd["k0"]), unhex(dd["tb"])
